@@ -322,30 +322,43 @@ OpStep(e) ==
       chkFresh == (hd.tr = 1) => libCreated \subseteq (UNION {AllIds(Elems(obsT[i])) : i \in {j \in 1..hd.nt : lvAfter(j)}}) \cup SeqToSet(e.dr)
       chkLen == \A i \in 1..hd.nt : lvAfter(i) =>
                   /\ obsX[i].len = Cardinality(newAb[i]) /\ obsX[i].cap >= obsX[i].len
-      chkAlloc == /\ BagEq(e.bl, lk2.blocks \o LiveBlocks(obsT, obsX, hd, 1))
+      \* allocation_size() is exactly what is held from the allocator, every live table holds one block with an alignment
+      \* sufficient for the elements and an aligned group scan and room for all elements + control bytes + mirrored group
+      \* (the exact size formula of the current layout policy is a STRICT fact only)
+      heldSizes == [i \in 1..Len(e.bl) |-> e.bl[i][1]]
+      leakedSizes == [i \in 1..Len(lk2.blocks) |-> lk2.blocks[i][1]]
+      RECURSIVE AszSeq(_)
+      AszSeq(i) == IF i > hd.nt THEN <<>> ELSE (IF lvAfter(i) /\ obsX[i].asz > 0 THEN <<obsX[i].asz>> ELSE <<>>) \o AszSeq(i + 1)
+      chkAlloc == /\ BagEq(heldSizes, leakedSizes \o AszSeq(1))
+                  /\ \A i \in 1..Len(e.bl) : e.bl[i][2] >= hd.ea /\ e.bl[i][2] >= W /\ IsPow2(e.bl[i][2])
                   /\ \A i \in 1..hd.nt : lvAfter(i) =>
-                        obsX[i].asz = (IF obsT[i].mask = 0 THEN 0 ELSE LayoutSize(hd.es, hd.ea, obsT[i].mask + 1))
+                        /\ (obsX[i].asz = 0) = (obsT[i].mask = 0)
+                        /\ (obsT[i].mask # 0 => obsX[i].asz >= hd.es * (obsT[i].mask + 1) + (obsT[i].mask + 1) + W)
+      allocStrict == /\ BagEq(e.bl, lk2.blocks \o LiveBlocks(obsT, obsX, hd, 1))
+                     /\ \A i \in 1..hd.nt : lvAfter(i) =>
+                           obsX[i].asz = (IF obsT[i].mask = 0 THEN 0 ELSE LayoutSize(hd.es, hd.ea, obsT[i].mask + 1))
       \* C08: an absent key inserted while len < capacity performs no allocation
       chkNoAlloc == (e.op \in InsertLike /\ ~Has(A, e.k) /\ prex.len < prex.cap) => e.al = <<>>
       chkReserve ==
         CASE e.op = "reserve" -> obsX[t].cap >= obsX[t].len + e.n
           [] e.op = "with_capacity" -> obsX[t].cap >= e.n
           [] e.op = "try_reserve" ->
-               /\ (TryClass(e.n, e.j, hd.es) # -1 => e.r[1] = TryClass(e.n, e.j, hd.es))
+               /\ (e.n \in {-1, -2, -3, -6} => e.r[1] = TryClass(e.n, e.j, hd.es))
                \* a representable request fails only because the allocator refused it
                /\ (e.n >= 0 /\ e.r[1] # 0 => e.r[1] = 2 /\ \E i \in 1..Len(e.al) : e.al[i][1] = 0)
                /\ (IF e.r[1] = 0 THEN (e.n >= 0 => obsX[t].cap >= obsX[t].len + e.n)
                    ELSE /\ obsT[t] = pre /\ obsX[t] = prex /\ e.dr = <<>>        \* error: nothing changed, nothing leaked
                         /\ \A i \in 1..Len(e.al) : e.al[i][1] = 0                \* only the refused request
                         /\ (e.r[1] = 2 => \E i \in 1..Len(e.al) : e.al[i][2] = e.r[2] /\ e.al[i][3] = e.r[3]))
-          [] e.op \in {"shrink_to", "shrink_to_fit"} ->
-               LET m == IF e.op = "shrink_to" THEN e.n ELSE 0
+          [] e.op \in {"shrink_to", "shrink_to_fit", "t_shrink_to_fit"} ->
+               LET m == IF e.op = "shrink_to" THEN e.n ELSE IF e.op = "t_shrink_to_fit" THEN obsX[t].len ELSE 0
                    lo == IF m < prex.cap THEN m ELSE prex.cap
                    need == IF obsX[t].len > m THEN obsX[t].len ELSE m
                IN /\ obsX[t].cap >= (IF obsX[t].len > lo THEN obsX[t].len ELSE lo)
                   /\ obsX[t].asz <= prex.asz
                   /\ (obsX[t].len = 0 /\ m = 0) => obsX[t].asz = 0
-                  /\ (need > 0 => obsX[t].asz <= LayoutSize(hd.es, hd.ea, CapToBuckets(need, hd.es)))
+                  \* e.r[1] = allocation_size of a fresh with_capacity(max(len, m)), measured on the real code
+                  /\ (need > 0 /\ Len(e.r) >= 1 => obsX[t].asz <= e.r[1])
           [] e.op = "clear" -> obsX[t].asz = prex.asz /\ e.al = <<>>
           [] e.op = "drain" -> e.al = <<>> /\ (e.n = 0 => obsX[t].asz = prex.asz)
           [] e.op = "new" -> obsX[t].asz = 0
@@ -395,7 +408,7 @@ OpStep(e) ==
                           THEN SetV(pre.data[i], e.v + ((CHOOSE q \in 1..N : e.r[q] = 1 /\ e.r[N + q] = i) - 1)) ELSE pre.data[i]]]
           [] hd.kind = "table" -> TableOp(e, pre, hq, LawfulEnv).t
           [] OTHER -> MapOp(e, pre, ph, LawfulEnv).t
-      strictOK ==
+      strictOK == allocStrict /\ (e.op = "try_reserve" /\ e.n \in {-4, -5} => e.r[1] = TryClass(e.n, e.j, hd.es)) /\
         CASE e.op = "drop" -> TRUE
           [] e.op = "clone" -> NoIds(obsT[u]) = NoIds(pre) /\ obsT[t] = pre
           [] e.op = "clone_from" -> NoIds(obsT[t]) = exp
